@@ -11,6 +11,10 @@ Open Scope N_scope.
 Lemma resp_head_translated : src_problems_resp_head = 0%nat /\ src_resp_body_shape_ok = true.
 Proof. split; reflexivity. Qed.
 
+(* copy_async's FixedBuf length, read from src/util.rs on this run, is the model's copy_cap (its loop is checked for shape) *)
+Lemma copy_buf_tie : copy_cap = N.to_nat src_copy_buf_len /\ src_problems_copy_async = 0%nat.
+Proof. split; reflexivity. Qed.
+
 Definition werr_of (e : werr_name) : werr :=
   match e with
   | WNUnwritable => EUnwritable
